@@ -155,10 +155,14 @@ def grad_registry():
         g = ip.ghost['cd']
         n = g.setdefault('nodes_built', 0)
         g['nodes_built'] = n + 1
+        from .dyn import check_flattened
         if n == 0:
             g['node0_arg'] = args[0]
+            check_flattened(ip, 'initial-state', args[0], g['initial_state'], g['hs_dim'])
             return g['node0']
         g['target_arg'] = args[0]
+        if g.get('target_source') is not None:
+            check_flattened(ip, 'target-derivative', args[0], g['target_source'], g['hs_dim'])
         return Target0
 
     @model
@@ -217,6 +221,7 @@ def grad_scenario(num_envs=1, record_all=None, target_callable=False):
             tgt = Vc('target_derivative')
             ip.assume(tgt != NONE)
             ip.ghost.setdefault('vtypes', {})[str(tgt)] = {'ndarray'}
+            g['target_source'] = tgt
         kwargs = dict(ctx['kwargs'])
         kwargs.pop('process_tensor')
         kwargs.update({'system': g['system'], 'target_derivative': tgt, 'process_tensors': g['process_tensors'],
